@@ -1,4 +1,4 @@
-"""Regression demonstration for the former known finding KF-C02-mask-shape-guard (fixed by FIXHASH: `np.all` -> `np.any` in the
+"""Regression demonstration for the former known finding KF-C02-mask-shape-guard (fixed by c7b8eca: `np.all` -> `np.any` in the
 mask-shape guard of propagate_dft).
 
 Exits 0 on a fixed tree (every mask whose shape differs from the output array in either dimension raises ValueError) and
